@@ -17,6 +17,7 @@ PROPS = {
 }
 def sh(cmd, **kw): return subprocess.run(cmd, shell=True, capture_output=True, text=True, **kw)
 resf={'1':'/verif/seeded/REFACTOR_RESULTS.json','2':'/verif/seeded/REFACTOR2_RESULTS.json','3':'/verif/seeded/REFACTOR3_RESULTS.json','4':'/verif/seeded/REFACTOR4_RESULTS.json','5':'/verif/seeded/REFACTOR5_RESULTS.json'}[ROUND]
+resf=os.environ.get('OUT',resf)   # OUT: partial results of a parallel run, merged afterwards
 res=json.load(open(resf)) if os.path.exists(resf) else {}
 # suite outcome per refactoring from an earlier evaluation of the same patch (SKIP_SUITE=1 reuses it)
 SUITE_KNOWN={}
@@ -32,13 +33,19 @@ for area in AREAS:
     sh(f'git -C /repo worktree add -f --detach {wt} HEAD')
     os.makedirs(ev+'/evidence/replay', exist_ok=True)
     shutil.copy('/verif/known-findings.txt', ev)
-    for pd in sorted(glob.glob(f'{src}/out/r*/patch.diff')):
-        n=os.path.basename(os.path.dirname(pd))
-        name=f'{area}-{TAG}{n[1:]}'
-        dst=f'/verif/seeded/refactor/{name}'
-        os.makedirs(dst, exist_ok=True)
-        shutil.copy(pd, dst)
-        if os.path.exists(os.path.dirname(pd)+'/notes.md'): shutil.copy(os.path.dirname(pd)+'/notes.md', dst)
+    fresh=sorted(glob.glob(f'{src}/out/r*/patch.diff'))
+    # the sub-agents' scratch worktrees are removed after a campaign: the committed copies are then the source
+    kept=sorted(glob.glob(f'/verif/seeded/refactor/{area}-{TAG}[0-9]*/patch.diff'))
+    for pd in (fresh or kept):
+        if fresh:
+            n=os.path.basename(os.path.dirname(pd))
+            name=f'{area}-{TAG}{n[1:]}'
+            dst=f'/verif/seeded/refactor/{name}'
+            os.makedirs(dst, exist_ok=True)
+            shutil.copy(pd, dst)
+            if os.path.exists(os.path.dirname(pd)+'/notes.md'): shutil.copy(os.path.dirname(pd)+'/notes.md', dst)
+        else:
+            name=os.path.basename(os.path.dirname(pd))
         sh(f'git -C {wt} checkout -- . && git -C {wt} clean -fdq')
         a=sh(f'git -C {wt} apply {pd}')
         if a.returncode!=0:
